@@ -37,7 +37,7 @@ func (fi *fmtInfo) events(n *core.Node) core.Bits {
 		b |= fvEncode
 	case isPrefixConcat(n):
 		b |= fvPrefix
-	case n.IsCallTo("strings.Join"):
+	case fi.isJoinSite(n):
 		b |= fvJoin
 	}
 	return b
@@ -215,7 +215,7 @@ func (e *Env) fmtJoin(rule string) {
 	sy := e.symbolizer()
 	var joins []*core.Node
 	for _, n := range g.Nodes {
-		if n.IsCallTo("strings.Join") && res.Reaches(func(m *core.Node) bool { return m == n }) != nil {
+		if fi.isJoinSite(n) && res.Reaches(func(m *core.Node) bool { return m == n }) != nil {
 			joins = append(joins, n)
 		}
 	}
@@ -224,21 +224,27 @@ func (e *Env) fmtJoin(rule string) {
 		return
 	}
 	for _, jn := range joins {
-		sep := sy.InCtx(jn.Ctx, jn.Call.Args[1]).String()
-		if !strings.HasSuffix(sep, ".joinSep") {
+		seps, pieces := fi.joinParts(jn)
+		sep := ""
+		okSep := len(seps) > 0
+		for _, z := range seps {
+			sep = z.String()
+			if !strings.HasSuffix(sep, ".joinSep") {
+				okSep = false
+			}
+		}
+		if !okSep {
 			ob.Fail(g.Where(jn), "the separator is "+sep+", not the one declared in the placeholder (PortInfo.joinSep)")
 			continue
 		}
-		pieces := appendedPieces(sy.InCtx(jn.Ctx, jn.Call.Args[0]))
 		// member paths: a Path call on an element of the collected sub-stream slice, inside a loop over it
 		memberOK := false
 		for _, n := range g.Nodes {
 			if !fi.isPathCall(fi.ipPath)(n) || res.Reaches(func(m *core.Node) bool { return m == n }) == nil {
 				continue
 			}
-			recv := sy.InCtx(n.Ctx, n.Call.Args[0]).String()
-			if strings.Contains(recv, "subStreamIPs") && strings.Contains(recv, "[op+(φ(-1 | ↺), 1)]") || strings.Contains(recv, "subStreamIPs") && strings.Contains(recv, "val∈") {
-				if _, ok := e.loopOver(g, n, "ubStreamIPs"); ok {
+			if coll := subStreamMemberOf(sy.InCtx(n.Ctx, n.Call.Args[0])); coll != nil {
+				if la, ok := e.loopOver(g, n, ""); ok && e.loopCollection(g, la) == coll.String() {
 					memberOK = true
 				}
 			}
@@ -254,7 +260,7 @@ func (e *Env) fmtJoin(rule string) {
 			if (fi.isMods(n) || isPrefixConcat(n)) && res.Reaches(func(m *core.Node) bool { return m == n }) != nil {
 				reachJoin := g.ReachableFrom(n, nil)[jn]
 				if reachJoin {
-					if _, ok := e.loopOver(g, n, "ubStreamIPs"); !ok {
+					if la, ok := e.loopOver(g, n, ""); !ok || !isSubStreamSlice(e.loopCollectionSym(g, la)) {
 						perMember = false
 					}
 				}
@@ -342,4 +348,34 @@ func (e *Env) fmtDefaultFatal(ob *core.Obligation) bool {
 		return false
 	}
 	return fi.fatalFor("\x00unknown-type")
+}
+
+// subStreamMemberOf: y is an element (by index or by range) of a slice taken out of a map[string][]*FileIP - a
+// member of a collected sub-stream; returns that slice. Identified by type, not by variable names.
+func subStreamMemberOf(y *core.Sym) *core.Sym {
+	if y == nil || (y.Op != "elem" && y.Op != "rangeval") || len(y.Args) == 0 {
+		return nil
+	}
+	if isSubStreamSlice(y.Args[0]) {
+		return y.Args[0]
+	}
+	return nil
+}
+
+func isSubStreamSlice(coll *core.Sym) bool {
+	if coll == nil {
+		return false
+	}
+	hit := false
+	coll.Walk(func(z *core.Sym) bool {
+		if z.Val != nil {
+			if mt, ok := z.Val.Type().Underlying().(*types.Map); ok {
+				if sl, ok := mt.Elem().Underlying().(*types.Slice); ok && typeNamed(sl.Elem()) != nil && typeNamed(sl.Elem()).Obj().Name() == "FileIP" {
+					hit = true
+				}
+			}
+		}
+		return !hit
+	})
+	return hit
 }
